@@ -126,6 +126,9 @@ def build(job):
         script['add_at'] = [m_idx + 1]
     if job['stop']:
         script['sl'] = 0.5 * (1 / lev - 0.004) if lev > 1 else 0.4
+    if job.get('resting_tps'):
+        # a ladder of take-profits far on the winning side: they rest (and must be cancelled) while the position is liquidated
+        script['tp'], script['tp_points'] = 0.2, job['resting_tps']
     return arr, script, {'entry': entry_eff, 'liq': liq, 'bankr': bankr, 'q1': q1}
 
 
@@ -296,6 +299,7 @@ def make_jobs(tier, seed):
             jobs.append({'kind': 's', 'seed': rng.randrange(1 << 30), 'i': i, 'lev': lev, 'side': side, 'pattern': pattern,
                          'stop': stop, 'fast': fast, 'mode': mode, 'averaged': rng.random() < 0.3,
                          'tf': rng.choice(['1m', '1m', '5m']), 'fee': rng.choice([0, 0.0005, 0.001]),
-                         'close_mode': rng.choice(['half', 'half', 'recover_profit', 'at_extreme'])})
+                         'close_mode': rng.choice(['half', 'half', 'recover_profit', 'at_extreme']),
+                         'resting_tps': rng.choice([0, 0, 3, 4])})
             i += 1
     return jobs
